@@ -69,6 +69,7 @@ Proof.
     destruct (if 0 <? cs_buf s then _ else _). cbn [snd]. apply plain_wu.
   - left. destruct (find_cs sid (cc_streams c)) as [s|]; [|constructor].
     destruct (cs_forgotten s || cs_peer_reset s || cs_peer_ended s); cbn [snd]; repeat constructor.
+  - left. destruct (negb (cc_dead c) && _ && _); cbn [snd]; constructor.
 Qed.
 
 Lemma plain_not_csettings : forall e, plain e -> not_csettings e.
@@ -552,4 +553,54 @@ Theorem reachable_step_blocks_whole : forall prio_len prio_last stream_in conn_f
 Proof.
   intros pl pla si cf Hc evs e. destruct (accept_all pl pla si cf Hc evs) as (mf & _ & HR & _).
   eapply step_blocks_whole. exact HR.
+Qed.
+
+(* ---- stream id allocation ----
+   The id counter never moves backwards, whatever event is handled: in particular an id that was
+   taken by a request which then never reached the wire (EOpenRefused) is burned, not given back. *)
+Lemma client_setting_next_id : forall kvs c, cc_next_id (fold_left client_setting kvs c) = cc_next_id c.
+Proof.
+  induction kvs as [|[id v] r IH]; intros c; simpl; [reflexivity|]. rewrite IH. unfold client_setting.
+  destruct (id =? S_MAX_FRAME_SIZE); [reflexivity|]. destruct (id =? S_MAX_CONCURRENT_STREAMS); [reflexivity|].
+  destruct (id =? S_INITIAL_WINDOW_SIZE); reflexivity.
+Qed.
+
+Theorem next_id_never_rewinds : forall c e, cc_next_id c <= cc_next_id (fst (conn_step c e)).
+Proof.
+  intros c e. destruct e; cbn [conn_step].
+  - destruct (negb (cc_dead c) && _ && _ && _ && _); cbn; lia.
+  - destruct (find_cs sid (cc_streams c)) as [s|]; [|cbn; lia].
+    destruct (negb (cs_forgotten s) && _ && _ && _ && _); [|cbn; lia].
+    destruct (out_take_stream _ _ _) as [[n' cn']|]; cbn; lia.
+  - destruct (find_cs sid (cc_streams c)) as [s|]; [|cbn; lia].
+    destruct (negb (cs_forgotten s) && _ && _ && _); cbn; lia.
+  - destruct (find_cs sid (cc_streams c)) as [s|]; [|cbn; lia]. destruct (negb (cs_forgotten s) && _); cbn; lia.
+  - destruct (find_cs sid (cc_streams c)) as [s|]; [|cbn; lia]. destruct (negb (cs_forgotten s) && _); cbn; lia.
+  - destruct (settings_valid kvs); cbn; [rewrite client_setting_next_id|]; lia.
+  - destruct ((1 <=? inc) && _); [|cbn; lia]. destruct (sid =? 0); [|cbn; lia].
+    destruct (out_add_conn (cc_flow c) inc) as [okb n']. destruct okb; cbn; lia.
+  - cbn; lia.
+  - cbn; lia.
+  - destruct ((0 <=? pad) && _ && _); [|cbn; lia].
+    destruct (find_cs sid (cc_streams c)) as [s|]; [|cbn; lia].
+    destruct (cs_forgotten s || cs_peer_reset s).
+    + destruct (in_take (cc_in c) len) as [[[|]|] f1]; try (cbn; lia). destruct (in_add_ret f1 len). cbn; lia.
+    + destruct (cs_peer_ended s); [cbn; lia|].
+      destruct (in_take2 (cc_in c) (cs_in s) len) as [[[|]|] [f1 g1]]; try (cbn; lia).
+      destruct (in_add_ret f1 _). destruct (if cs_app_closed s then _ else _). cbn; lia.
+  - destruct (find_cs sid (cc_streams c)) as [s|]; [|cbn; lia].
+    destruct ((1 <=? n) && _ && _ && _); [|cbn; lia].
+    destruct (in_add_ret (cc_in c) n). destruct (if eof then _ else _). cbn; lia.
+  - destruct (find_cs sid (cc_streams c)) as [s|]; [|cbn; lia].
+    destruct (negb (cs_app_closed s)); [|cbn; lia]. destruct (if 0 <? cs_buf s then _ else _). cbn; lia.
+  - destruct (find_cs sid (cc_streams c)) as [s|]; [|cbn; lia].
+    destruct (cs_forgotten s || cs_peer_reset s || cs_peer_ended s); cbn; lia.
+  - destruct (negb (cc_dead c) && _ && _); cbn; lia.
+Qed.
+
+Theorem next_id_run_monotone : forall evs c, cc_next_id c <= cc_next_id (fst (conn_run c evs)).
+Proof.
+  induction evs as [|e r IH]; intros c; cbn [conn_run]; [cbn; lia|].
+  pose proof (next_id_never_rewinds c e) as H1. destruct (conn_step c e) as [c1 o1]. cbn [fst] in H1.
+  specialize (IH c1). destruct (conn_run c1 r) as [c2 o2]. cbn [fst] in *. lia.
 Qed.
